@@ -7,10 +7,14 @@ real engine by the `c19 …` driver operations replayed by the harness.
 
 Fragment: fields of type STRING / BOOLEAN / INTEGER / DOUBLE (and the id column), comparisons
 EQ NE LT LE GT GE in disjunctive normal form, ORDER BY, OFFSET, LIMIT, count, audit, replace, delete.
-Outside (oracle only): UUID fields, LIKE / NOT_LIKE, secondary and unique indexes, proofs.
+Outside (oracle only): UUID fields, LIKE / NOT_LIKE, secondary and unique indexes.
+Document proofs: `ImmuModel/Doc/Verify.lean` mirrors `pkg/verification.VerifyDocument`; the theorems
+`verifyDocument_sound` / `verifyDocument_entry_in_tx` (end of this file) say what an accepted proof establishes.
 -/
 import ImmuModel.Doc.Doc
 import ImmuModel.Doc.Proofs
+import ImmuModel.Doc.VerifyProofs
+import ImmuModel.Tx.Concrete
 
 namespace ImmuModel.Props.C19
 open ImmuModel ImmuModel.Doc ImmuModel.Doc.ProofsAux
@@ -239,6 +243,111 @@ theorem typed_view_integer_conversion :
     f2i 0xC3E0000000000000 = -9223372036854775808 ∧ f2i 0x43DFFFFFFFFFFFFF = 9223372036854774784 := by
   decide
 
+-- ------------------------------------------------------------------ document proofs (VerifyDocument)
+
+section DocumentProofs
+open ImmuModel.Tx ImmuModel.Merkle ImmuModel.Store ImmuModel.DocVerify
+variable {D : Type} [DecidableEq D]
+
+/-- (g) What an accepted `VerifyDocument` establishes.  There is a header `hdr` of the dual proof — its source or
+its target — with the SAME id and the SAME accumulated hash as the header shipped with the entries
+(`alh txHdr = alh hdr = provenAlh`, the hash the dual proof was verified with on that side); exactly one entry
+carries the document's key and every such entry carries `H(EncodedDocument)`; the presented document equals the
+decoded one; the entries hash to `txHdr.eh`; the client's known state is one end of the proof with its hash (or
+there is none and the proof starts at tx 1); `VerifyDualProofV2` accepted the proof between the two ends (so the
+C01 dual-proof theorems apply); the new state is the target with its hash and passes the signature predicate. -/
+theorem verifyDocument_sound (hs : Hs D) (sigOk : Client.State D → Bool) (encKey : Bytes) (dc : DocCheck)
+    (known : Client.State D) (p : Proof D) (ns : Client.State D)
+    (h : verifyDocument hs sigOk encKey dc known p = some (.ok ns)) :
+    ∃ sh th sAlh tAlh hdr provenAlh,
+      p.dual.sourceTxHeader = some sh ∧ p.dual.targetTxHeader = some th ∧ sh.id ≤ th.id ∧
+      alh hs sh = some sAlh ∧ alh hs th = some tAlh ∧
+      ((hdr = sh ∧ provenAlh = sAlh) ∨ (hdr = th ∧ provenAlh = tAlh)) ∧
+      p.txHdr.id = hdr.id ∧ alh hs p.txHdr = some provenAlh ∧ alh hs hdr = some provenAlh ∧
+      countKey hs encKey p.encDoc p.entries 0 = .ok 1 ∧
+      (∃ e ∈ p.entries, e.key = encKey ∧ e.hValue = hs.H p.encDoc) ∧
+      (∀ e ∈ p.entries, e.key = encKey → e.hValue = hs.H p.encDoc) ∧
+      dc = .same ∧
+      (HTree.build hs.mhH hs.enc (p.entries.map (entryDigest hs p.txHdr.version))).root = p.txHdr.eh ∧
+      (known.txId = 0 → sh.id = 1) ∧
+      (known.txId ≠ 0 → (known.txId = sh.id ∧ known.txHash = sAlh) ∨ (known.txId = th.id ∧ known.txHash = tAlh)) ∧
+      verifyDualProofV2 hs (some p.dual) sh.id th.id sAlh tAlh = some (.ok ()) ∧
+      ns = ⟨th.id, tAlh⟩ ∧ sigOk ns = true := by
+  obtain ⟨sh, th, sAlh, tAlh, xAlh, hcnt, hdc, -, hroot, hsh, hth, hle, hsa, hta, hxa, hb, hk, hdual, hns, hsig⟩ :=
+    VerifyAux.verifyDocument_inv hs sigOk encKey dc known p ns h
+  obtain ⟨k0, k1⟩ := VerifyAux.knownOk_inv known sh.id th.id sAlh tAlh hk
+  have hfound := VerifyAux.countKey_found hs encKey p.encDoc p.entries 0 1 hcnt (by omega)
+  have hall := VerifyAux.countKey_all hs encKey p.encDoc p.entries 0 1 hcnt
+  have hknown : known.txId ≠ 0 →
+      (known.txId = sh.id ∧ known.txHash = sAlh) ∨ (known.txId = th.id ∧ known.txHash = tAlh) := by
+    intro hne
+    obtain ⟨hor, hs', ht'⟩ := k1 hne
+    rcases hor with e | e
+    · exact Or.inl ⟨e, hs' e⟩
+    · exact Or.inr ⟨e, ht' e⟩
+  rcases VerifyAux.bound_inv _ _ _ _ _ _ hb with ⟨hid, ha⟩ | ⟨hid, ha⟩
+  · exact ⟨sh, th, sAlh, tAlh, sh, sAlh, hsh, hth, hle, hsa, hta, Or.inl ⟨rfl, rfl⟩, hid, by rw [hxa, ha], hsa,
+      hcnt, hfound, hall, hdc, hroot, k0, hknown, hdual, hns, hsig⟩
+  · exact ⟨sh, th, sAlh, tAlh, th, tAlh, hsh, hth, hle, hsa, hta, Or.inr ⟨rfl, rfl⟩, hid, by rw [hxa, ha], hta,
+      hcnt, hfound, hall, hdc, hroot, k0, hknown, hdual, hns, hsig⟩
+
+/-- (g) End-to-end for header version 1.  If the header of the dual proof that has the id of the shipped header is
+the GENUINE header of that transaction — its entries digest is the reference tree over the digests of the
+transaction's entries `es` — then an accepted proof shows that (kv-metadata, document key, H(EncodedDocument)) IS one
+of the transaction's entries, or a collision of H is exhibited.  (Field-width hypotheses `HdrOK`/`Fits`: what the
+wire format can carry.)  A header that merely has the right id (the seeded change c19-a) gives no such conclusion. -/
+theorem verifyDocument_entry_in_tx (hs : Hs D) (sigOk : Client.State D → Bool) (encKey : Bytes) (dc : DocCheck)
+    (known : Client.State D) (p : Proof D) (ns : Client.State D)
+    (hv1 : p.txHdr.version = 1)
+    (h : verifyDocument hs sigOk encKey dc known p = some (.ok ns))
+    (es : List (EntryV1 D)) (hne : es ≠ []) (hfs : ∀ x ∈ es, x.Fits)
+    (hfit : ∀ e ∈ p.entries, e.md.length < 65536 ∧ e.key.length < 65536)
+    (hok : Rec.Auth.HdrOK p.txHdr)
+    (hes : ∀ hdr, (p.dual.sourceTxHeader = some hdr ∨ p.dual.targetTxHeader = some hdr) → hdr.id = p.txHdr.id →
+        Rec.Auth.HdrOK hdr ∧
+        hdr.eh = mth hs.mhH ((es.map (EntryV1.digest hs)).map (fun d => hs.mhH.leafH (hs.enc d)))) :
+    (∃ md, (⟨md, encKey, hs.H p.encDoc⟩ : EntryV1 D) ∈ es) ∨ HColl hs := by
+  obtain ⟨sh, th, sAlh, tAlh, hdr, provenAlh, hsh, hth, -, -, -, hside, hid, hxa, hha, -, ⟨e, hemem, hek, hev⟩, -, -,
+    hroot, -⟩ := verifyDocument_sound hs sigOk encKey dc known p ns h
+  have hhdr : p.dual.sourceTxHeader = some hdr ∨ p.dual.targetTxHeader = some hdr := by
+    rcases hside with ⟨x, -⟩ | ⟨x, -⟩
+    · rw [x]; exact Or.inl hsh
+    · rw [x]; exact Or.inr hth
+  obtain ⟨hokh, heh⟩ := hes hdr hhdr hid.symm
+  rcases Rec.Auth.alh_inj_or_coll hs p.txHdr hdr hok hokh provenAlh hxa hha with heq | hc
+  · -- the shipped header IS the proven one: its eh is the genuine entries digest
+    have heh' : p.txHdr.eh = mth hs.mhH ((es.map (EntryV1.digest hs)).map (fun d => hs.mhH.leafH (hs.enc d))) := by
+      rw [heq]; exact heh
+    -- the document entry sits at some index of the shipped entries
+    obtain ⟨i, hi, hget⟩ := List.getElem_of_mem hemem
+    let ds := p.entries.map (entryDigest hs p.txHdr.version)
+    have hlen : i < ds.length := by simp [ds]; exact hi
+    obtain ⟨pr, -, -, -, hver⟩ := hInclusionProof_complete hs.mhH hs.enc ds i hlen
+    have hdi : ds[i] = EntryV1.digest hs ⟨e.md, e.key, e.hValue⟩ := by
+      simp only [ds, List.getElem_map, hget, entryDigest, hv1]
+      rw [if_neg (by decide)]
+      rfl
+    have hroot' : (HTree.build hs.mhH hs.enc ds).root =
+        mth hs.mhH ((es.map (EntryV1.digest hs)).map (fun d => hs.mhH.leafH (hs.enc d))) :=
+      hroot.trans heh'
+    rw [hdi, hroot'] at hver
+    rcases entry_inclusion_sound hs pr ⟨e.md, e.key, e.hValue⟩ es hne (hfit e hemem) hfs hver with hin | hc
+    · left
+      refine ⟨e.md, ?_⟩
+      rw [← hek, ← hev]
+      exact hin
+    · exact Or.inr hc
+  · exact Or.inr hc
+
+/-- The header binding is by id AND accumulated hash on BOTH sides: a shipped header that only carries the id of the
+source header is refused (the decision the seeded change c19-a weakened). -/
+theorem bound_requires_alh (xId : Nat) (xAlh : D) (sId tId : Nat) (sAlh tAlh : D)
+    (hid : xId = sId) (hne : xAlh ≠ sAlh) : bound xId xAlh sId tId sAlh tAlh = false := by
+  unfold bound
+  rw [if_neg (by intro ⟨a, _⟩; exact a hid), if_pos ⟨hid, hne⟩]
+
+end DocumentProofs
+
 -- ------------------------------------------------------------------ non-vacuity
 
 /-- a one-field collection, two documents: the hypotheses of the theorems above are satisfiable -/
@@ -255,5 +364,31 @@ example : (match insert exColl0 [1] (exDoc 0x7FE1CCF385EBC8A0) with
     | .error _ => false) = true := by decide
 
 example : ∀ d ∈ exColl0.docs, d.id ≠ [1] := by simp [exColl0]
+
+/-- document proofs: an accepting run of `verifyDocument` exists (toy hash = pad/truncate to 32 bytes — nothing is
+assumed about `H`; first use, one transaction holding one entry, the shipped header is both ends of the proof), and
+the same proof with another `prevAlh` in the shipped header only (same id, other Alh) is refused.  Accepting
+runs on real proofs with SHA-256 are produced by every harness run (`c19 vdoc`, genuine rounds). -/
+def toyHs : Hs Digest where
+  H b := Digest.ofBytes b
+  enc d := d.val
+  enc_len d := d.property
+  enc_inj _ _ h := Subtype.ext h
+def exEnc : Bytes := [1, 2, 3]
+def exEntry : DocVerify.TxEntry Digest := ⟨[7], [], toyHs.H exEnc⟩
+def exHdr : Tx.TxHeader Digest :=
+  { id := 1, ts := 0, blTxID := 0, blRoot := Digest.ofBytes [], prevAlh := Digest.ofBytes [], version := 1, md := [],
+    nentries := 1, eh := (Merkle.HTree.build toyHs.mhH toyHs.enc [DocVerify.entryDigest toyHs 1 exEntry]).root }
+def exProof : DocVerify.Proof Digest := ⟨exEnc, [exEntry], exHdr, ⟨some exHdr, some exHdr, [], []⟩⟩
+def exForged : DocVerify.Proof Digest :=
+  ⟨exEnc, [exEntry], { exHdr with prevAlh := Digest.ofBytes [1] }, ⟨some exHdr, some exHdr, [], []⟩⟩
+
+example : (match DocVerify.verifyDocument toyHs (fun _ => true) [7] .same ⟨0, Digest.ofBytes []⟩ exProof with
+    | some (.ok ns) => ns.txId == 1
+    | _ => false) = true := by decide
+
+example : (match DocVerify.verifyDocument toyHs (fun _ => true) [7] .same ⟨0, Digest.ofBytes []⟩ exForged with
+    | some (.error .invalidProof) => true
+    | _ => false) = true := by decide
 
 end ImmuModel.Props.C19
